@@ -24,6 +24,8 @@ def main(argv=None):
         os.environ['PYTHONHASHSEED'] = '0'
         os.environ['VF_REEXEC'] = '1'
         os.execv(sys.executable, [sys.executable, '-m', 'vf.run'] + (argv or sys.argv[1:]))
+    import logging
+    logging.disable(logging.CRITICAL)
     from vf import core
     try:
         seed = int(os.environ.get('VERIF_SEED', '0') or 0)
